@@ -404,6 +404,8 @@ pub fn run() -> Report {
             recovery_ref.insert(cb, r.files.iter().map(|(k, v)| (k.clone(), canon(k, v))).collect());
         }
     }
+    rep.count("phase-ms:reference-runs", rep.started.elapsed().as_millis() as u64);
+    let t_phase = std::time::Instant::now();
     let mut cases: Vec<Case> = Vec::new();
     // 1. input faults
     for cb in CBS {
@@ -419,12 +421,16 @@ pub fn run() -> Report {
                 }
             }
             for cut in 0..flen {
+                // quick: every byte for csvdump, every 5th byte and the first / last 16 for the two map callbacks (they read the
+                // same bytes through the same reader); thorough: every byte for all three
+                if !thorough && cb != "csvdump" && cut % 5 != 0 && cut >= 16 && cut + 16 < flen {
+                    continue;
+                }
                 cases.push(Case::Input { cb, height: h, fault: format!("truncated@{}", cut), range: (None, None) });
                 if cut == flen / 2 {
                     cases.push(Case::Input { cb, height: h, fault: format!("truncated@{}", cut), range: (Some(h.min(4)), None) });
                 }
             }
-            let _ = thorough;
         }
     }
     let aux_worlds: BTreeMap<&'static str, (World, ChainBuilder)> = ["namecoin", "dogecoin"].into_iter().map(|cn| (cn, aux_world(cn))).collect();
@@ -453,7 +459,9 @@ pub fn run() -> Report {
                 _ => vec![],
             };
             for (a, kind) in answers {
-                if *is_large && !thorough && !matches!(a, "ENOSPC" | "SHORTM" | "EPIPE") {
+                // (a run on the large world costs seconds in the dev profile: the quick tier answers its calls with ENOSPC, a
+                // short write on every other call, a crash - below - and a signal at the first and the last call; thorough: all)
+                if *is_large && !thorough && !(a == "ENOSPC" || (a == "SHORTM" && c.k % 2 == 0)) {
                     continue;
                 }
                 // SHORT1 / SHORTM need a write of more than one byte
@@ -466,7 +474,7 @@ pub fn run() -> Report {
             // asynchronous events: a signal arrives immediately before this call (terminal interrupt, termination request,
             // hang-up, a user signal, quit) - whatever the program does with it
             for sig in ["SIGINT", "SIGTERM", "SIGHUP", "SIGUSR1", "SIGQUIT"] {
-                if !*is_large || thorough || sig == "SIGINT" || sig == "SIGTERM" {
+                if !*is_large || thorough || (sig == "SIGINT" && (c.k == 0 || c.k + 1 == seq.len())) {
                     cases.push(Case::Output { cb, large: *is_large, plan: format!("{}:{}", c.k, sig), kind: "signal" });
                 }
             }
@@ -717,6 +725,8 @@ pub fn run() -> Report {
     for p in parts {
         rep.merge(p);
     }
+    rep.count("phase-ms:fault-and-crash-cases", t_phase.elapsed().as_millis() as u64);
+    let t_phase = std::time::Instant::now();
     read_deviations(&mut rep, &root, "C10", &small, &small, "plain", &CBS);
     {
         // blocks larger than the reader's buffer (40 KiB and 100 KiB): one block = several read() calls
@@ -729,6 +739,7 @@ pub fn run() -> Report {
         let big = World::simple(btc, &cb.blocks, 0);
         read_deviations(&mut rep, &root, "C10", &big, &big, "plain-big-blocks", &CBS);
     }
+    rep.count("phase-ms:read-deviations", t_phase.elapsed().as_millis() as u64);
     // no fault at all: the first clause (exit 0 => every output file under its final name, no *.tmp) for every accepted shape
     // of the range options, including ranges that contain no block at all (an incremental dump when nothing new has arrived)
     {
